@@ -11,7 +11,14 @@
    out-of-range command seen so far, the address is a byte, the image is non-empty, the start page is
    non-negative.  All theorems quantify over every such target (any geometry, any memory content,
    either address), every image, start/override page, stale queue and script. *)
-From CF Require Import Common.Bytes C12.Model C12.Lists C12.Proofs_upload C12.Proofs_write C12.Proofs_flash C12.Proofs.
+From CF Require Import Common.Bytes.
+From CF Require Import C12.Model.
+From CF Require Import C12.Lists.
+From CF Require Import C12.Proofs_upload.
+From CF Require Import C12.Proofs_write.
+From CF Require Import C12.Proofs_flash.
+From CF Require Import C12.Proofs.
+From CF Require Import C12.Proofs_plan.
 Open Scope Z_scope.
 
 (* Success means the image is in flash, byte for byte, at start * page_size — provided positive
@@ -71,6 +78,28 @@ Theorem C12_upload_packets : forall tid page address buff,
     Forall (fun c => zlen c = 25) full /\ zlen last <= 24.
 Proof. exact upload_buffer_spec. Qed.
 Print Assumptions C12_upload_packets.
+
+(* Which buffer loads a run sends (for ANY geometry values with page size and buffer count >= 1): the
+   load frames of the run are, in order, the uploads of page 0, 1, 2, ... — page i to buffer page
+   (i mod buffer_pages), from offset 0, each page once — all of them when the run succeeds, a prefix
+   otherwise; each of them reaches the target; a refused run sends nothing.  Together with
+   C12_upload_packets (the payloads of one upload partition the page chunk at consecutive offsets)
+   and C12_page_chunks_partition_image this is "every byte of every page exactly once, at the right
+   offset". *)
+Theorem C12_pages_loaded_once_in_order : forall addr ps bp fp sp override image q scr out q' scr' tr,
+  1 <= zlen image -> 1 <= ps -> 1 <= bp ->
+  internal_flash addr ps bp fp sp override image q scr = (out, q', scr', tr) ->
+  loads_delivered tr /\
+  exists rest,
+    all_loads addr ps bp image 0 (Z.to_nat (npages (zlen image) ps)) = loads tr ++ rest /\
+    (out = Done -> rest = []) /\ (out = Refused -> tr = []).
+Proof. exact run_loads. Qed.
+Print Assumptions C12_pages_loaded_once_in_order.
+
+Theorem C12_page_chunks_partition_image : forall image ps, 1 <= ps -> 1 <= zlen image ->
+  concat (map (page_chunk image ps) (zrange 0 (Z.to_nat (npages (zlen image) ps)))) = image.
+Proof. exact chunks_partition. Qed.
+Print Assumptions C12_page_chunks_partition_image.
 
 (* Every frame of a run (buffer loads and flash writes) is at most 32 bytes: header + 31, starts with
    header FF and is addressed to the target being flashed. *)
